@@ -516,3 +516,18 @@ def fx_record(fx):
         n = tagkind.record_sites(c, fx, "recfx::Store::" + f, "recfx::Rec", "bytes", ["packed", "stage"])
         res[f] = (n, len(c.violations))
     return res["ok_put"] == (2, 0) and res["ok_put2"] == (2, 0) and res["bad_put"] == (2, 1)
+
+
+def fx_capsrc(fx):
+    from rules import capsrc
+    c = _ctx()
+    n = capsrc.run(c, fx, ["src/lib.rs"], only=lambda fid: "capfx::" in fid)
+    return n == 3 and _fires(c, "capfx::bad_ratio") and not _fires(c, "capfx::ok_const") and not _fires(c, "capfx::ok_stored")
+
+
+def fx_pairaccess(fx):
+    from rules import narrow
+    c1, c2 = _ctx(), _ctx()
+    narrow.pair_accessor(c1, fx, "pairfx::V::ok_get2")
+    narrow.pair_accessor(c2, fx, "pairfx::V::bad_get2")
+    return not c1.violations and len(c2.violations) == 1
